@@ -116,10 +116,13 @@ pub fn wellformed(seed: u64, idx: u64) -> Scenario {
                 // header syntax, next to the same request with a benign value
                 let pname = *rng.pick(QUERY_PARAMS);
                 let method = *rng.pick(&["GET", "GET", "HEAD", "OPTIONS"]);
-                let target = *rng.pick(&["/file.txt", "/page", "/d/", "/", "/missing", "/style.css"]);
+                let target = *rng.pick(&["/file.txt", "/page", "/d/", "/d", "/", "/missing", "/style.css"]);
                 let mk = |val: &str| req(method, &format!("{}?{}={}", target, pname, val), &[("Origin", "http://a.example")], b"");
                 sc.conns.push(Conn::simple(id, id as u32, mk(*rng.pick(QUERY_BENIGN)), "query_benign"));
-                let mut c = Conn::simple(id + 1, id as u32 + 1, mk(*rng.pick(QUERY_INJECT)), "query_hostile");
+                // percent-encoded header syntax, or raw control characters a request line can carry
+                const RAW: &[&str] = &["x\rX-Injected:1", "x\rSet-Cookie:injected=1", "\rX-Injected:1", "x\x0bX-Injected:1", "x\x0cX-Injected:1", "x\r\rX-Injected:1", "x\u{85}X-Injected:1", "x\tX-Injected:1", "x\rX-Injected: 1"];
+                let hostile = if rng.chance(1, 2) { *rng.pick(RAW) } else { *rng.pick(QUERY_INJECT) };
+                let mut c = Conn::simple(id + 1, id as u32 + 1, mk(hostile), "query_hostile");
                 c.twin = Some(id);
                 sc.conns.push(c);
             }
@@ -223,6 +226,7 @@ pub fn plan(tier: Tier, seed: u64) -> Vec<Campaign> {
         exhaustive: false,
         gen: Box::new(move |i| write_faults(seed, i)),
     });
+    v.push(Campaign { name: "large_files", budget: Budget::Count(match tier { Tier::Quick => 48, Tier::Thorough => 400 }), exhaustive: false, gen: Box::new(move |i| super::c02::large_scenario("C05", seed, i)) });
     if tier == Tier::Thorough {
         v.push(Campaign { name: "random_multi_split", budget: Budget::Time(2), exhaustive: false, gen: Box::new(move |i| multi_split(seed, i)) });
     }
